@@ -24,6 +24,9 @@ var solvers = []solverSpec{
 	{"cvc5-1.0.3", func(file string, t int, seed int) []string {
 		return []string{"cvc5", fmt.Sprintf("--tlimit=%d", t*1000), fmt.Sprintf("--seed=%d", seed), "--produce-models", file}
 	}},
+	{"z3-5.1.0-ematch", func(file string, t int, seed int) []string {
+		return []string{"z3-new", fmt.Sprintf("-T:%d", t), fmt.Sprintf("smt.random_seed=%d", seed), "smt.mbqi=false", "smt.auto_config=false", file}
+	}},
 	{"z3-4.8.12", func(file string, t int, seed int) []string {
 		return []string{"/usr/bin/z3", fmt.Sprintf("-T:%d", t), fmt.Sprintf("smt.random_seed=%d", seed), file}
 	}},
@@ -61,6 +64,9 @@ func runSolver(ctx context.Context, s solverSpec, file string, opts solveOpts) s
 	switch first {
 	case "sat", "unsat":
 		res = first
+		if first == "sat" && strings.HasSuffix(s.name, "-ematch") {
+			res = "unknown"
+		}
 	case "timeout":
 		res = "timeout"
 	default:
@@ -88,8 +94,12 @@ func solveObl(o *Obl, idx int, opts solveOpts) {
 	defer cancel()
 	ch := make(chan solverAnswer, len(solvers))
 	n := 0
+	hasQ := strings.Contains(script, "(forall ")
 	for _, s := range solvers {
 		if opts.only != "" && !strings.HasPrefix(s.name, opts.only) {
+			continue
+		}
+		if s.name == "z3-5.1.0-ematch" && !hasQ {
 			continue
 		}
 		n++
